@@ -138,8 +138,8 @@ Proof.
   apply aeqb_true in E. exfalso; apply H; auto.
 Qed.
 
-Lemma split_byte_join c s h t : split_byte c s = (h, t) ->
-  s = sepjoin c (h :: t) /\ Forall (fun l => ~ In c l) (h :: t).
+Lemma split_byte_join c s (h : bytes) (t : list bytes) : split_byte c s = (h, t) ->
+  s = sepjoin c (h :: t) /\ Forall (fun l : bytes => ~ In c l) (h :: t).
 Proof.
   revert h t; induction s as [|x r IH]; simpl; intros h t H.
   - inversion H; subst. simpl. auto.
@@ -160,7 +160,7 @@ Proof.
   - intros [-> NI]. now apply split_byte_notin.
 Qed.
 
-Lemma split_byte_sepjoin c h t : Forall (fun l => ~ In c l) (h :: t) ->
+Lemma split_byte_sepjoin c (h : bytes) (t : list bytes) : Forall (fun l : bytes => ~ In c l) (h :: t) ->
   split_byte c (sepjoin c (h :: t)) = (h, t).
 Proof.
   revert h; induction t as [|x t IH]; intros h F.
